@@ -18,7 +18,7 @@ import time
 ROOT = os.path.dirname(os.path.dirname(os.path.abspath(__file__)))
 SPEC = os.path.join(ROOT, "spec")
 HARNESS = os.path.join(ROOT, "harness")
-NVH = os.path.join(HARNESS, "target", "debug", "nvh")
+NVH = os.environ.get("NVH_BIN") or os.path.join(HARNESS, "target", "debug", "nvh")
 REPLAYS = os.path.join(ROOT, "replays")
 EVIDENCE = os.path.join(ROOT, "evidence")
 KNOWN = os.path.join(ROOT, "known_findings.jsonl")
@@ -42,6 +42,9 @@ def work_dir(tag):
 
 
 def build_harness():
+    if os.environ.get("NVH_BIN"):
+        # development only: a harness built elsewhere against a scratch copy of the repository
+        return 0.0
     env = dict(os.environ)
     env["CARGO_NET_OFFLINE"] = "true"
     t0 = time.time()
